@@ -50,7 +50,7 @@ STATIC = ["C03/LIR.v", "C03/VSL.v", "C03/ArithSpec.v", "C03/WordArith.v", "C03/T
           "C03/TieBase.v", "C03/VSubst.v", "C03/TieModels.v", "C03/LegacyExact.v", "C03/VenomExact.v",
           "C03/ConvSpec.v", "C03/ConvModel.v", "C03/ConvExact.v", "C03/VConvExact.v", "C03/ConvTie.v",
           "C03/PowExact.v", "C03/PowTie.v", "C03/UnsafeExact.v", "C03/UnsafeTie.v", "C03/ClampExact.v", "C03/ClampTie.v",
-          "C03/LIRMem.v", "C03/VSLMem.v", "C03/BytesConv.v", "C03/BytesConvTie.v", "C03/BuiltinExact.v", "C03/BuiltinTie.v"]
+          "C03/LIRMem.v", "C03/VSLMem.v", "C03/BytesConv.v", "C03/BytesConvTie.v", "C03/BuiltinExact.v", "C03/BuiltinTie.v", "C03/LitConvTie.v"]
 # regenerated templates + the ties + the property theorems about the REAL templates
 LEGACY = ["C03/GenLegacy.v", "C03/TieLegacy.v", "C03/PropsLegacy.v"]
 VENOM = ["C03/GenVenom.v", "C03/TieVenom.v", "C03/PropsVenom.v"]
@@ -63,6 +63,7 @@ UNSV = ["C03/GenUnsafeVenom.v", "C03/TieUnsafeVenom.v", "C03/PropsUnsafeVenom.v"
 CLAMP = ["C03/GenClamp.v", "C03/TieClamp.v", "C03/PropsClamp.v"]
 BCONV = ["C03/GenBytesConv.v", "C03/TieBytesConv.v", "C03/PropsBytesConv.v"]
 BLT = ["C03/GenBuiltins.v", "C03/TieBuiltins.v", "C03/PropsBuiltins.v"]
+LITC = ["C03/GenLitConv.v", "C03/TieLitConv.v", "C03/PropsLitConv.v"]
 
 OPSYM = {"AAdd": "+", "ASub": "-", "AMul": "*", "ADiv": "//", "AMod": "%", "AUSub": "-"}
 
@@ -1114,7 +1115,7 @@ def builtin_cases(key, lits, rnd):
     if key[0] == "shift":
         lo, hi = bounds(*key[2])
         xs = type_grid((32, key[1], False), rnd, 9)
-        ns = sorted({n for n in SHIFT_AMOUNTS + [lo, hi, rnd.randrange(lo, hi + 1)] if lo <= n <= min(hi, 2**255 - 1)})
+        ns = sorted({n for n in SHIFT_AMOUNTS + [2**255, lo, hi, rnd.randrange(lo, hi + 1)] if lo <= n <= hi})
         grids = [xs, ns]
     elif key[0] == "abs":
         grids = [type_grid((32, True, False), rnd, 11)]
@@ -1189,8 +1190,8 @@ SHIFT_LIT_PROBES = [("uint256", "shift(x, 3)"), ("uint256", "shift(x, -3)"), ("i
 
 
 def shift_glue(ctx, cfgs):
-    """shift(x, n) through the full compiler vs shift_safe (BuiltinTie.v, = shift_spec on the domain); amounts of an
-    unsigned 256-bit type are probed below 2^255 here and at/above 2^255 by the separate defect probe"""
+    """shift(x, n) through the full compiler vs shift_safe (BuiltinTie.v, = shift_spec on the domain); the probes of a uint256
+    amount >= 2^255 are the permanent regression for shift-builtin-unsigned-amount-negative (fixed in 1d5ff18)"""
     import re
     rnd = ctx.rng("shiftglue")
     tk = {"int256": (32, True), "uint256": (32, False), "int8": (1, True), "uint8": (1, False), "int128": (16, True)}
@@ -1201,14 +1202,17 @@ def shift_glue(ctx, cfgs):
     for i, (tx, tn) in enumerate(SHIFT_PROBES):
         lo, hi = bounds(*tk[tn])
         xs = type_grid((32, tk[tx][1], False), rnd, 7)
-        ns = sorted({n for n in SHIFT_AMOUNTS + [lo, hi] if lo <= n <= min(hi, 2**255 - 1)})
+        ns = sorted({n for n in SHIFT_AMOUNTS + [2**255, lo, hi] if lo <= n <= hi})
         cases[f"s{i}"] = (tk[tx][1], [(x, n) for x in xs for n in ns])
     for i, (tx, e) in enumerate(SHIFT_LIT_PROBES):
         n = int(re.search(r", (-?\d+)\)", e).group(1))
         cases[f"l{i}"] = (tk[tx][1], [(x, n) for x in type_grid((32, tk[tx][1], False), rnd, 9)])
+    import warnings
     for cfg in cfgs:
         try:
-            out = compile_src(src, cfg, formats=("bytecode", "method_identifiers"))
+            with warnings.catch_warnings():
+                warnings.simplefilter("ignore")     # "shift() is deprecated"
+                out = compile_src(src, cfg, formats=("bytecode", "method_identifiers"))
         except Exception as e:  # noqa
             ctx.violation("correspondence-broken", f"shift() probe does not compile under {cfg.name}",
                           {"source": src, "config": cfg.name, "error": f"{type(e).__name__}: {e}"[:600]})
@@ -1232,8 +1236,8 @@ def shift_glue(ctx, cfgs):
                 if got != 0:
                     defect = {"source": src, "config": cfg.name, "calldata": dt.hex(), "function": "s4 = shift(x: uint256, n: uint256)",
                               "args": [str(x), str(n)], "expected": "0x0", "observed": "revert" if got == -1 else hex(got),
-                              "cause": "Shift.build_IR / lower_shift test the sign of the amount with slt whatever its type; an unsigned "
-                                       "amount >= 2**255 is shifted RIGHT by 2**256-n (theorem shift_amount_defect)"}
+                              "cause": "Shift.build_IR / lower_shift must test the sign of the amount (slt) only for a signed amount type; "
+                                       "an unsigned amount >= 2**255 was shifted RIGHT by 2**256-n (theorem shift_amount_regression)"}
                     break
     keys = list(groups)
     rows = [{"spec": groups[k]["spec"], "multi": [r[1] for r in groups[k]["runs"]]} for k in keys]
@@ -1252,6 +1256,59 @@ def shift_glue(ctx, cfgs):
                             "calldata": datas[i].hex(), "source": src})
     ctx.corr["shift_glue_cases"] = n_eval
     return n_eval, failing, defect
+
+
+def literal_convert_glue(ctx, litfam, tie_ok, cfgs):
+    """convert(<literal>, T) through the full compiler under both pipelines vs conv_spec (evaluated by Coq): cases the
+    generators accept must return exactly the value (or revert / be rejected statically when conv_spec is Revert); cases
+    rejected by a generator must not have a value.  If the Coq tie is broken, the mismatching cases are searched first."""
+    rnd = ctx.rng("litglue")
+    picks = []
+    if not tie_ok:
+        try:
+            out = coqrun.eval_zlists("From Verif Require Import C03.TieModels C03.ConvTie C03.LitConvTie C03.GenLitConv.\n",
+                                     ["bad_idx lit_tie_l 0 legacy_litconverts", "bad_idx lit_tie_v 0 venom_litconverts"], "c03badlit", timeout=300)
+            lk = [a for a in litfam if a[6][0] != "crash"]
+            vk = [a for a in litfam if a[7][0] != "crash"]
+            picks = [lk[j] for j in out[0][:12]] + [vk[j] for j in out[1][:12]]
+            ctx.log(f"search literal converts: {len(out[0])} legacy / {len(out[1])} venom cases differ from conv_spec")
+        except Exception:  # noqa
+            pass
+    pool = [a for a in litfam]
+    rnd.shuffle(pool)
+    picks += pool[:(14 if ctx.tier == "quick" else 120)]
+    seen, cases = set(), []
+    for a in picks:
+        if (a[0], a[4]) not in seen:
+            seen.add((a[0], a[4]))
+            cases.append(a)
+    if not cases:
+        return 0, []
+    spec = coqrun.eval_zlists(CONV_PRELUDE, ["[" + "; ".join(f"oc (c_enc_out {a[2]} (conv_spec {a[1]} {a[2]} {X.zl(a[5])}))" for a in cases) + "]"],
+                              "c03litglue", timeout=300)[0]
+    failing, n_eval = [], 0
+    for a, e in zip(cases, spec):
+        lit, _, _, ki, ko, v, rl, rv = a
+        tname = c_src_name(ko)
+        src = f"@external\ndef f() -> {tname}:\n    return convert({lit}, {tname})\n"
+        for cfg in cfgs:
+            n_eval += 1
+            try:
+                out = compile_src(src, cfg, formats=("bytecode", "method_identifiers"))
+            except Exception as ex:  # noqa  -- compile-time rejection
+                got, how = -1, f"rejected at compile time: {type(ex).__name__}"
+            else:
+                chain = Chain(cfg.evm)
+                addr = chain.deploy(bytes.fromhex(out["bytecode"][2:]))
+                sel = int(list(out["method_identifiers"].values())[0], 16).to_bytes(4, "big")
+                got, how = call_word(chain, addr, sel), "executed"
+            if got != e:
+                failing.append({"source": src, "config": cfg.name, "convert": f"{lit} ({c_src_name(ki)}) -> {tname}",
+                                "calldata": "?", "expected": "revert or compile-time rejection" if e == -1 else hex(e),
+                                "observed": ("revert / " + how) if got == -1 else hex(got)})
+                break
+    ctx.corr["literal_convert_glue_cases"] = n_eval
+    return n_eval, failing
 
 
 # ------------------------------------------------------------------ main
@@ -1427,6 +1484,16 @@ def generate_and_build(ctx):
         bltfam = {"legacy": l_, "venom": v_, "flag_legacy": fl_, "flag_venom": fv_}
     except Exception as e:  # noqa
         gen_err = (gen_err or "") + f" builtins export: {type(e).__name__}: {e}"
+    litfam = None
+    try:
+        # quick: a seeded sample of literal x target type; thorough: the whole cross product (14k cases)
+        text, litfam = X.gen_literal_converts(None if ctx.tier == "thorough" else 0.05, ctx.rng("litconv"))
+        (COQ / "C03" / "GenLitConv.v").write_text(text)
+        crashes = [(a[0], a[4], k, r[1]) for a in litfam for k, r in (("legacy", a[6]), ("venom", a[7])) if r[0] == "crash"]
+        if crashes:
+            ctx.extra["literal_convert_generator_crashes"] = [str(c) for c in crashes[:10]]
+    except Exception as e:  # noqa
+        gen_err = (gen_err or "") + f" literal-convert export: {type(e).__name__}: {e}"
     if any(X.CRASHES.get(k) for k in ("legacy", "venom")):
         ctx.extra["convert_generator_crashes"] = {k: v[:10] for k, v in X.CRASHES.items() if v}
     ctx.extra["family_size"] = {"legacy_templates": len(ltempl), "venom_templates": len(vtempl), "numeric_types": 65,
@@ -1447,7 +1514,8 @@ def generate_and_build(ctx):
            "unsv": {"ok": False, "file": "C03/GenUnsafeVenom.v", "failed_lemma": None, "out": gen_err or ""},
            "clamp": {"ok": False, "file": "C03/GenClamp.v", "failed_lemma": None, "out": gen_err or ""},
            "bconv": {"ok": False, "file": "C03/GenBytesConv.v", "failed_lemma": None, "out": gen_err or ""},
-           "blt": {"ok": False, "file": "C03/GenBuiltins.v", "failed_lemma": None, "out": gen_err or ""}}
+           "blt": {"ok": False, "file": "C03/GenBuiltins.v", "failed_lemma": None, "out": gen_err or ""},
+           "litc": {"ok": False, "file": "C03/GenLitConv.v", "failed_lemma": None, "out": gen_err or ""}}
     if b0["ok"]:
         ths = []
         if ltempl:
@@ -1472,22 +1540,24 @@ def generate_and_build(ctx):
             ths.append(threading.Thread(target=build_chain, args=(ctx, BCONV, STATIC, res, "bconv")))
         if bltfam:
             ths.append(threading.Thread(target=build_chain, args=(ctx, BLT, STATIC, res, "blt")))
+        if litfam:
+            ths.append(threading.Thread(target=build_chain, args=(ctx, LITC, STATIC, res, "litc")))
         for t in ths:
             t.start()
         for t in ths:
             t.join()
     bl, bv, bcl, bcv, bpl, bpv = res["legacy"], res["venom"], res["convl"], res["convv"], res["powl"], res["powv"]
-    bul, buv, bclamp, bbconv, bblt = res["unsl"], res["unsv"], res["clamp"], res["bconv"], res["blt"]
+    bul, buv, bclamp, bbconv, bblt, blitc = res["unsl"], res["unsv"], res["clamp"], res["bconv"], res["blt"], res["litc"]
     ctx.log(f"coq done {time.time()-t0:.0f}s static={b0['ok']} legacy={bl['ok']} venom={bv['ok']} "
             f"convert-legacy={bcl['ok']} convert-venom={bcv['ok']} pow-legacy={bpl['ok']} pow-venom={bpv['ok']} "
-            f"unchecked-legacy={bul['ok']} unchecked-venom={buv['ok']} clamps={bclamp['ok']} bytes-convert={bbconv['ok']} builtins={bblt['ok']}")
-    if all(b["ok"] for b in (bl, bv, bcl, bcv, bpl, bpv, bul, buv, bclamp, bbconv, bblt)):
+            f"unchecked-legacy={bul['ok']} unchecked-venom={buv['ok']} clamps={bclamp['ok']} bytes-convert={bbconv['ok']} builtins={bblt['ok']} literal-convert={blitc['ok']}")
+    if all(b["ok"] for b in (bl, bv, bcl, bcv, bpl, bpv, bul, buv, bclamp, bbconv, bblt, blitc)):
         ctx.extra["syntactic_matches"] = (len(ltempl) + len(vtempl) + 130 + len(lconv) + len(vconv) + len(lpow) + len(vpow)
                                           + len(luns) + len(vuns))
 
     return dict(gen_err=gen_err, ltempl=ltempl, vtempl=vtempl, lconv=lconv, vconv=vconv, vextra=vextra, lpow=lpow, vpow=vpow,
                 luns=luns, vuns=vuns, clampfam=clampfam, b0=b0, bl=bl, bv=bv, bcl=bcl, bcv=bcv, bpl=bpl, bpv=bpv,
-                bul=bul, buv=buv, bclamp=bclamp, bfam=bfam, bbconv=bbconv, bltfam=bltfam, bblt=bblt)
+                bul=bul, buv=buv, bclamp=bclamp, bfam=bfam, bbconv=bbconv, bltfam=bltfam, bblt=bblt, litfam=litfam, blitc=blitc)
 
 
 def prebuild(ctx):
@@ -1537,6 +1607,7 @@ def run(ctx):
     clampfam, bclamp = g["clampfam"], g["bclamp"]
     bfam, bbconv = g["bfam"], g["bbconv"]
     bltfam, bblt = g["bltfam"], g["bblt"]
+    litfam, blitc = g["litfam"], g["blitc"]
 
     # ---- correspondence / search
     # ---- correspondence / search
@@ -1890,6 +1961,13 @@ def run(ctx):
                 found = True
             ctx.violation("failing-input", "shift(x, n) with n: uint256 >= 2**255 shifts right instead of returning 0", defect,
                           key="shift-builtin-unsigned-amount-negative")
+        if litfam:
+            n, lfail = literal_convert_glue(ctx, litfam, blitc["ok"], quick_glue_configs()[:2] if ctx.tier == "quick" else quick_glue_configs())
+            total += n
+            for f in lfail[:8]:
+                found = True
+                ctx.violation("failing-input", f"convert of the literal {f['convert']} under {f['config']} is not exact-or-revert", f,
+                              key=f"literal-convert:{f['convert']}:{f['config']}")
         ctx.log(f"builtin differentials done {time.time()-t0:.0f}s")
         return found, total
 
@@ -1906,7 +1984,7 @@ def run(ctx):
     if gen_err and not found:
         ctx.violation("translator-rejected", "template export failed: " + gen_err, {"error": gen_err})
     for b, what in ((b0, "static"), (bl, "legacy"), (bv, "venom"), (bcl, "convert-legacy"), (bcv, "convert-venom"),
-                    (bpl, "pow-legacy"), (bpv, "pow-venom"), (bul, "unchecked-legacy"), (buv, "unchecked-venom"), (bclamp, "clamps"), (bbconv, "bytes-convert"), (bblt, "builtins")):
+                    (bpl, "pow-legacy"), (bpv, "pow-venom"), (bul, "unchecked-legacy"), (buv, "unchecked-venom"), (bclamp, "clamps"), (bbconv, "bytes-convert"), (bblt, "builtins"), (blitc, "literal-convert")):
         if not b["ok"] and not found and not (gen_err and what != "static"):
             ctx.violation("theorem-broken", f"{b.get('failed_lemma')} in {b.get('file')} ({what})",
                           {"theorem": b.get("failed_lemma"), "file": b.get("file"), "coq_output": (b.get("out") or "")[-1500:]})
